@@ -28,10 +28,10 @@ EVIDENCE_DIR = os.path.join(HERE, "evidence")
 TIERS = {
     "C04": {"quick": (2500, 100), "thorough": (60000, 1200)},
     "C05": {"quick": (2500, 100), "thorough": (60000, 1200)},
-    "C07": {"quick": (1200, 110), "thorough": (40000, 1200)},
+    "C07": {"quick": (900, 120), "thorough": (40000, 1200)},
     "C08": {"quick": (1500, 110), "thorough": (40000, 1200)},
     "C09": {"quick": (2500, 100), "thorough": (60000, 1200)},
-    "C13": {"quick": (90, 100), "thorough": (6000, 1500)},
+    "C13": {"quick": (90, 130), "thorough": (6000, 1500)},
     "C14": {"quick": (50, 100), "thorough": (5000, 1500)},
     "C15": {"quick": (350, 100), "thorough": (15000, 1500)},
     "C20": {"quick": (100, 90), "thorough": (6000, 1500)},
